@@ -233,6 +233,76 @@ func suiteC01base(c *Ctx) []Suite {
 			})
 			return op, msg
 		}),
+		{Name: "roundtrip/completed-templates", Gen: func(c *Ctx) []Case {
+			// complete messages reached through templates: variables filled in one or two
+			// steps, the session set before, between or after the fills, the wait bit decided
+			var out []Case
+			for i := 0; i < c.N(500); i++ {
+				names := &nameGen{}
+				tmpl := genNode(c.R, &GenOpt{MaxDepth: 3, MaxSlots: 4, PVar: 0.35, names: names}, 0)
+				var vars []varRef
+				collectVars(tmpl, &vars)
+				asg := map[string]FillVal{}
+				var keys []string
+				for _, v := range vars {
+					fv := genFillVal(c.R, v.node, 0, names)
+					for len(fv.Open) > 0 || fv.Slot == nil {
+						fv = genFillVal(c.R, v.node, 0, names)
+					}
+					asg[v.name] = fv
+					keys = append(keys, v.name)
+				}
+				m := completeMsgDesc(c.R, tmpl)
+				w := m.W
+				m.W = 2
+				if w == 1 && m.F%2 == 0 {
+					m.F |= 1
+				}
+				m.HSMS = false
+				sess := fmt.Sprintf("sess %d %s", m.Sid, hx(m.Sys))
+				half := len(keys) / 2
+				fills := []string{"fill " + envTokens(asg, keys)}
+				if half > 0 && c.R.Intn(2) == 0 {
+					fills = []string{"fill " + envTokens(asg, keys[:half]), "fill " + envTokens(asg, keys[half:])}
+				}
+				var steps []string
+				switch c.R.Intn(3) {
+				case 0:
+					steps = append([]string{m.newStep(), sess}, fills...)
+				case 1:
+					steps = append(append([]string{m.newStep()}, fills...), sess)
+				default:
+					steps = append([]string{m.newStep(), fills[0], sess}, fills[1:]...)
+				}
+				steps = append(steps, fmt.Sprintf("wait %d", w))
+				op := "mprog " + strings.Join(steps, " | ")
+				impl := implEval(op)
+				cs := Case{Op: op, Impl: impl, Decisive: true, Nontrivial: true, Tags: []string{fmt.Sprintf("completed-template vars:%d", len(keys))}}.fields("s f w sid sys bytes vars")
+				b, _ := unhx(strings.TrimPrefix(project(lastField(impl), "bytes"), "bytes="))
+				switch {
+				case strings.Contains(impl, "PANIC"):
+					cs.Oracle = "completing a template with in-domain values is refused"
+				case len(b) == 0:
+					cs.Oracle = "a completed, addressed message encodes to no bytes"
+				default:
+					m2, ok := hsms.Parse(b)
+					if !ok {
+						cs.Oracle = "decoding the encoding of a completed template fails"
+					} else if d, isData := m2.(*ast.DataMessage); !isData || d.SessionID() != m.Sid || !bytes.Equal(d.SystemBytes(), m.Sys) || !bytes.Equal(d.ToBytes(), b) {
+						cs.Oracle = fmt.Sprintf("completed template does not round-trip: session %d / % x expected", m.Sid, m.Sys)
+					} else if direct := substitute(tmpl, asg); direct != nil {
+						dm := *m
+						dm.Item, dm.HSMS, dm.W = direct, true, w
+						if want := project(implEval("mprog "+dm.newStep()), "bytes"); want != "bytes="+hx(b) {
+							cs.Oracle = "completed template encodes differently from the directly constructed message"
+						}
+					}
+					out = append(out, Case{Op: "dec " + hx(b), Tags: []string{"dec-of-completed"}})
+				}
+				out = append(out, cs)
+			}
+			return out
+		}},
 		{Name: "roundtrip/boundaries", Gen: func(c *Ctx) []Case {
 			// every format at every length-byte boundary with real items
 			var out []Case
@@ -679,6 +749,53 @@ func suiteC13base(c *Ctx) []Suite {
 					}
 				})
 				out = append(out, Case{Detail: fmt.Sprintf("real ASCII item, %d characters", n), Oracle: res, Nontrivial: true, Tags: []string{"real-item"}})
+			}
+			// lists with exactly 255, 256, 65535, 65536 elements: header from the element count
+			for _, n := range []int{255, 256, 257, 65535, 65536} {
+				var res string
+				safely(func() {
+					kids := make([]interface{}, n)
+					for i := range kids {
+						kids[i] = ast.NewBooleanNode(i%2 == 0)
+					}
+					for _, it := range []ast.ItemNode{ast.NewListNode(kids...), ast.NewListNode(ast.NewASCIINode("x"), ast.NewListNode(kids...))} {
+						b := it.ToBytes()
+						want, _ := unhx(closedFormHeader("list", n))
+						if !bytes.Contains(b[:imin(len(b), 12)], want) || len(b) < n*3 {
+							res = fmt.Sprintf("list of %d elements: header bytes % x, closed form % x", n, b[:imin(len(b), 8)], want)
+							return
+						}
+						msg := ast.NewHSMSDataMessage("", 1, 1, 0, "H<->E", it, 1, []byte{0, 0, 0, 1})
+						m2, ok := hsms.Parse(msg.ToBytes())
+						if !ok {
+							res = fmt.Sprintf("decoder rejects the library's own encoding of a list of %d elements", n)
+							return
+						}
+						if !bytes.Equal(m2.ToBytes(), msg.ToBytes()) {
+							res = fmt.Sprintf("a list of %d elements is read back differently", n)
+						}
+					}
+				})
+				out = append(out, Case{Detail: fmt.Sprintf("real list, %d elements", n), Oracle: res, Nontrivial: true, Tags: []string{"real-list"}})
+			}
+			// the limit holds on every path that builds an item: filling an unbounded ASCII
+			// variable with 16,777,216 characters is refused, with 16,777,215 it is not
+			for _, n := range []int{16777215, 16777216} {
+				for _, nested := range []bool{false, true} {
+					var tmpl ast.ItemNode = ast.NewASCIINodeVariable("v", 0, -1)
+					if nested {
+						tmpl = ast.NewListNode(ast.NewASCIINodeVariable("v", 0, -1), ast.NewUintNode(1, 7))
+					}
+					var got ast.ItemNode
+					pan, _ := safely(func() { got = tmpl.FillVariables(map[string]interface{}{"v": string(bytes.Repeat([]byte{'z'}, n))}) })
+					res := ""
+					if n > 16777215 && !pan {
+						res = fmt.Sprintf("an ASCII variable filled with %d characters is accepted (encodes to %d bytes)", n, len(got.ToBytes()))
+					} else if n <= 16777215 && (pan || len(got.ToBytes()) < n) {
+						res = fmt.Sprintf("an ASCII variable filled with %d characters (within the limit) is refused or does not encode", n)
+					}
+					out = append(out, Case{Detail: fmt.Sprintf("fill ASCII variable with %d characters nested=%v", n, nested), Oracle: res, Nontrivial: true, Tags: []string{"fill-at-limit"}})
+				}
 			}
 			// the largest constructible item of the wide numeric formats, and one element more
 			widths := []int{8, 4}
